@@ -63,7 +63,13 @@ def formulas(ctx: Ctx, rule="FORMULA"):
         table[role] = {}
         for name, fi, ex in vs:
             for v, why in ex.problems:
-                ctx.undecided(rule, f"{name}", (fi, v) if fi else v, f"return expression not evaluated: {why}: {U(v)}")
+                if fi is not None:
+                    # the converters are closed forms in (argument, π): a returned value that passes through anything else
+                    # (rounding, clipping, a table, a scalar-only math function …) is not the exact formula for every input
+                    ctx.violate(rule, f"{name}:closed-form", (fi, v), f"`{U(v)[:80]}` is not a closed-form expression of the argument ({why}): the variant no longer computes the exact "
+                                "sphere formula for every (scalar or array) argument, so the variants disagree and the round trip is not the identity")
+                else:
+                    ctx.undecided(rule, f"{name}", v, f"return expression not evaluated: {why}: {U(v)}")
             for k, (call, okf, par) in enumerate(ex.fills):
                 ctx.decide(okf, rule, f"{name}:constant-shape#{k}", (fi, call) if fi else call, f"the constant result has the shape of `{par}`",
                            f"`{U(call)}` does not have the shape of its argument `{par}` (element-wise converters return one value per input element, in the input's shape)")
@@ -294,6 +300,18 @@ def arg_rule(ctx: Ctx, variants, rule="ARG"):
                             okv = True
                     if not okv and bad is None:
                         bad = st
+            # scalar-only functions: math.sqrt / math.pow / math.cbrt raise TypeError for arrays (numpy's ufuncs accept both)
+            if bad is None:
+                for c_ in ast.walk(fi.node):
+                    if isinstance(c_, ast.Call):
+                        full = ctx.model.callee(fi.module, c_) or (dotted(c_.func) or "")
+                        if full.startswith("math.") and full.split(".")[-1] not in ("isnan", "isfinite", "isinf") and c_.args:
+                            bad = c_
+                            break
+                if bad is not None:
+                    ctx.violate(rule, name + ":array", (fi, bad), f"`{U(bad)[:60]}` is a scalar-only function of the standard library: this variant raises TypeError for array arguments "
+                                "while its siblings (numpy ufuncs) convert them element-wise — the variants no longer agree on arrays")
+                    continue
             ctx.decide(bad is None, rule, name, (fi, bad) if bad is not None else fi, "the formula is applied to the argument as passed (element-wise, any numeric type)",
                        f"`{U(bad)[:80] if bad is not None else ''}` replaces the argument before the formula is applied: the result is no longer the element-wise conversion of what the caller passed "
                        "(reductions change the values and the shape of array arguments; untyped array coercion turns Python ints into fixed-width integers whose powers overflow)")
